@@ -243,3 +243,38 @@ func (r *Result) MustOK() error {
 	}
 	return nil
 }
+
+var reRejected = regexp.MustCompile(`TRACE-REJECTED-AT-LINE", (\d+)`)
+
+// ValidateTrace runs a trace specification over trace.ndjson (lines). It returns 0 when the whole
+// trace was accepted, else the 1-based number of the first line that no action of the specification explains.
+func ValidateTrace(module, cfg string, lines [][]byte, extraFiles map[string][]byte) (int, *Result, error) {
+	var buf bytes.Buffer
+	for _, l := range lines {
+		buf.Write(l)
+		buf.WriteByte('\n')
+	}
+	files := map[string][]byte{"trace.ndjson": buf.Bytes()}
+	for k, v := range extraFiles {
+		files[k] = v
+	}
+	res, err := Run(Opts{Module: module, Cfg: cfg, Workers: 1, Files: files, Timeout: 20 * time.Minute,
+		JavaOpts: []string{"-Dtlc2.tool.queue.IStateQueue=StateDeque"}})
+	if err != nil {
+		return 0, res, err
+	}
+	if m := reRejected.FindStringSubmatch(res.Raw); m != nil {
+		n, _ := strconv.Atoi(m[1])
+		return n, res, nil
+	}
+	if res.ErrorText != "" && !strings.Contains(res.ErrorText, "TraceAccepted") {
+		return 0, res, fmt.Errorf("TLC error during trace validation: %s", res.ErrorText)
+	}
+	if !res.Finished {
+		return 0, res, fmt.Errorf("TLC did not finish trace validation\n%s", lastLines(res.Raw, 20))
+	}
+	if res.Generated != int64(len(lines))+1 && res.Distinct != int64(len(lines))+1 {
+		return 0, res, fmt.Errorf("trace validation explored %d states for %d lines", res.Generated, len(lines))
+	}
+	return 0, res, nil
+}
